@@ -10,11 +10,19 @@ import (
 	"github.com/elastos/Elastos.ELA/common/config"
 	"github.com/elastos/Elastos.ELA/core/types"
 	common2 "github.com/elastos/Elastos.ELA/core/types/common"
+	"github.com/elastos/Elastos.ELA/core/types/outputpayload"
+	"github.com/elastos/Elastos.ELA/core/types/payload"
 	"github.com/elastos/Elastos.ELA/zzverif/nd"
 )
 
+// zzC24eras: the era boundaries the selection code may look at, each before
+// or after the evaluated height (100)
+var zzC24v2Start, zzC24noCRC uint32
+
 func zzC24arbiters(nonce uint32) *Arbiters {
 	cfg := &config.Configuration{}
+	cfg.DPoSV2StartHeight = zzC24v2Start
+	cfg.DPoSConfiguration.NoCRCDPOSNodeHeight = zzC24noCRC
 	cfg.DPoSConfiguration.NormalArbitratorsCount = 4
 	cfg.DPoSConfiguration.CandidatesCount = 6
 	blk := &types.Block{Header: common2.Header{Version: 1, Nonce: nonce, Height: 99}}
@@ -34,11 +42,15 @@ func zzC24arbiters(nonce uint32) *Arbiters {
 // Native replay of a schedule-dependent violation: one goroutine hammers the
 // global source while this one evaluates the function repeatedly on a fixed
 // block; reproduced iff two different indices are observed within 5 s
-// (probabilistic by nature; labelled as such in the evidence).
+// (probabilistic by nature; labelled as such in the evidence). The era
+// boundaries DPoSV2StartHeight and NoCRCDPOSNodeHeight lie before or after the
+// evaluated height.
 func ZZ_C24_candidate() {
 	nonce := nd.U32("prevBlockNonce")
 	unclaimed := nd.Choose("unclaimed", 2)
 	voted := 8 + nd.Choose("votedProducers", 4)
+	zzC24v2Start = []uint32{0, 50, 150, 0xffffffff}[nd.Choose("dposV2StartHeight", 4)]
+	zzC24noCRC = []uint32{0, 50, 150}[nd.Choose("noCRCDPOSNodeHeight", 3)]
 	if !nd.Symbolic() {
 		zzC24native(nonce, unclaimed, voted)
 		return
@@ -145,4 +157,51 @@ func ZZ_C24_history() {
 	nd.Reach("evaluated")
 	nd.Assert(errA == nil && err2 == nil && err3 == nil, "choices_are_made")
 	nd.Assert(i2 == i3, "choice_after_a_reorganisation_equals_the_choice_of_a_fresh_node")
+}
+
+// ZZ_C24_sortedv2: the DPoS 2.0 ranking (getSortedProducersDposV2) of three
+// active producers whose vote rights are 9000, 9000 and one of 8500 / 9000 /
+// 9500 (ties included; threshold 8000; vote weight exactly 1) with distinct
+// node keys, each ranking under a solver-chosen iteration order of the
+// producer map: two rankings are identical, descending by vote rights, and
+// ties are broken by node key.
+func ZZ_C24_sortedv2() {
+	nd.MapOrderNondet()
+	cfg := &config.Configuration{}
+	cfg.DPoSV2EffectiveVotes = 8000
+	st := &State{StateKeyFrame: NewStateKeyFrame(), ChainParams: cfg}
+	stake := common.Uint168{0x54, 1}
+	rights := []common.Fixed64{9000, 9000, []common.Fixed64{8500, 9000, 9500}[nd.Choose("thirdRights", 3)]}
+	keys := [][]byte{{3}, {1}, {2}}
+	var ps []*Producer
+	for i := 0; i < 3; i++ {
+		p := &Producer{state: Active}
+		p.info.NodePublicKey = keys[i]
+		p.info.OwnerKey = []byte{byte(0x40 + i)}
+		dv := payload.DetailedVoteInfo{StakeProgramHash: stake, TransactionHash: common.Uint256{0x77, byte(i)}, BlockHeight: 10, VoteType: outputpayload.DposV2,
+			Info: []payload.VotesWithLockTime{{Candidate: p.info.OwnerKey, Votes: rights[i], LockTime: 10 + 7200}}}
+		p.detailedDPoSV2Votes = map[common.Uint168]map[common.Uint256]payload.DetailedVoteInfo{stake: {dv.ReferKey(): dv}}
+		ps = append(ps, p)
+		st.ActivityProducers[string([]byte{byte('a' + i)})] = p
+	}
+	a := &Arbiters{State: st, ChainParams: cfg}
+	r1 := a.getSortedProducersDposV2()
+	r2 := a.getSortedProducersDposV2()
+	if !nd.Symbolic() {
+		for trial := 0; trial < 500 && len(r1) == 3 && len(r2) == 3 &&
+			r1[0] == r2[0] && r1[1] == r2[1] && r1[2] == r2[2]; trial++ {
+			r2 = a.getSortedProducersDposV2()
+		}
+	}
+	nd.Reach("ranked")
+	nd.Assert(len(r1) == 3 && len(r2) == 3, "every_effective_producer_is_ranked")
+	if len(r1) == 3 && len(r2) == 3 {
+		for i := range r1 {
+			nd.Assert(r1[i] == r2[i], "v2_ranking_is_independent_of_map_iteration_order")
+		}
+		for i := 0; i+1 < 3; i++ {
+			x, y := r1[i].GetTotalDPoSV2VoteRights(), r1[i+1].GetTotalDPoSV2VoteRights()
+			nd.Assert(x > y || (x == y && r1[i].info.NodePublicKey[0] < r1[i+1].info.NodePublicKey[0]), "v2_ranking_is_by_vote_rights_then_node_key")
+		}
+	}
 }
